@@ -16,8 +16,14 @@ kproof! {
         if n >= 1 { sizes.push(a); }
         if n >= 2 { sizes.push(b); }
         let idat = IdatContents { chunk_sizes: sizes, zlib_header: kani::any(), total_chunk_length: 0, addler32: kani::any() };
-        let mut buf: Vec<u8> = Vec::new();
-        idat.write_to_bytestream(&mut buf).unwrap();
+        // fixed buffer instead of a growing Vec (Vec growth under symbolic lengths ran out of memory)
+        let mut raw = [0u8; 24];
+        let used = {
+            let mut cur = std::io::Cursor::new(&mut raw[..]);
+            idat.write_to_bytestream(&mut cur).unwrap();
+            cur.position() as usize
+        };
+        let buf = &raw[..used];
         let mut s = &buf[..];
         let back = IdatContents::read_from_bytestream(&mut s).unwrap();
         assert!(back.chunk_sizes.len() == n, "number of IDAT chunk sizes changed in the descriptor round trip");
@@ -27,7 +33,7 @@ kproof! {
         assert!(s.is_empty());
         kani::cover!(n == 2 && a == 0, "zero-length first chunk");
         kani::cover!(n == 2 && a > 300 && b > 70000, "multi-byte varints");
-        core::mem::forget(back); core::mem::forget(idat); core::mem::forget(buf);
+        core::mem::forget(back); core::mem::forget(idat);
     }
 }
 
@@ -54,4 +60,13 @@ fn idat_total<const N: usize>() {
     kani::cover!(matches!(&r, Ok((i, _)) if i.chunk_sizes.len() == 2), "two chunks accepted");
     core::mem::forget(r);
 }
-kproof! { fn k01e_idat_total_27() { idat_total::<27>(); } }
+kproof! {
+    /// K01e: all inputs of <= 27 bytes.  The checksum function is replaced by a cheap byte mixer
+    /// (its value is not the subject; both parse_idat and recreate_idat call the same function).
+    #[kani::stub(crc32fast::Hasher::update, crc32fast::Hasher::update_cheap)]
+    fn k01e_idat_total_27() { idat_total::<27>(); }
+}
+kproof! {
+    /// K01e': one chunk with the real (bit-serial) CRC-32, <= 20 bytes
+    fn k01e_idat_total_20_crc() { idat_total::<20>(); }
+}
